@@ -52,22 +52,28 @@ var actNames = [...]string{"ok", "ok-extra-fields", "wrong-name", "wrong-api-ver
 
 func (a ActKind) String() string { return actNames[a] }
 
+// replyGood reports whether the reply sent at step st is a complete,
+// well-formed, successful reply for that step.
+func (a ActKind) replyGood(st Step) bool {
+	switch a {
+	case ActOK, ActOKExtra, ActOKThenExit:
+		return true
+	case ActWrongName, ActWrongVersion, ActMissingRequired:
+		// only the handshake reply carries a name, a version and required fields
+		return st != StepHandshake
+	case ActEmptyResult:
+		return st == StepGoodbye // a void result is empty by definition
+	}
+	return false
+}
+
 // fails reports whether the action makes the plugin a failed plugin when it
 // is applied at step st.
 func (a ActKind) fails(st Step) bool {
-	switch a {
-	case ActOK, ActOKExtra:
-		return false
-	case ActOKThenExit:
+	if a == ActOKThenExit {
 		return st != StepGoodbye // after goodbye, exiting is what a plugin does
-	case ActWrongName, ActWrongVersion:
-		return st == StepHandshake
-	case ActMissingRequired:
-		return st == StepHandshake // GenerateServiceResponse has no required field; goodbye has no body
-	case ActEmptyResult:
-		return st != StepGoodbye // a void result is empty by definition
 	}
-	return true
+	return !a.replyGood(st)
 }
 
 // exits reports whether the plugin process ends right after performing the action.
@@ -113,7 +119,7 @@ func (s *Script) handshakeOK() bool {
 	if s.Conforming {
 		return true
 	}
-	return !s.Steps[StepHandshake].Kind.fails(StepHandshake)
+	return s.Steps[StepHandshake].Kind.replyGood(StepHandshake)
 }
 
 // aliveAfterHandshake: handshake replied OK and the process keeps reading.
